@@ -386,6 +386,8 @@ def run(tier, seed, result):
                                          'args': [is_async]}})
     from . import c11_sched
     notes.append(c11_sched.run(tier, seed, result))
+    from . import c11_threads
+    notes.append(c11_threads.run(tier, seed, result))
     result.cov['evaluations'] = result.cov.get('transitions', 0)
     result.cov['distinct_nontrivial'] = result.cov.get('states', 0)
     result.sample({'history': [['connect', 0, '/', 'accept'],
